@@ -50,6 +50,10 @@ def base_plan(rng, prop, clauses, adapter, T=None):
     cfg = ad.cfg(rng, e, T)
     if ad.vector:
         e["scripts"] = [make_script(rng, T) for _ in range(cfg["num_envs"])]
+        for i, sc in enumerate(e["scripts"]):
+            # every kind of episode end occurs early in some parallel environment (short runs must meet truncation AND termination)
+            sc[0]["end"] = ["trunc", "term", "both"][(i + cfg["num_envs"]) % 3]
+            sc[0]["len"] = min(sc[0]["len"], rng.choice([1, 2, 3]))
     if ad.name == "ppo":
         T = cfg["iterations"] * cfg["batch_size"] * cfg["num_envs"]
     sanitize_parts(ad.name, cfg, e)
@@ -59,6 +63,31 @@ def base_plan(rng, prop, clauses, adapter, T=None):
         "supply_buffer": True, "start_step": 0, "monitor": False,
         "chain": [{"total_timesteps": T, "total_episodes": None}],
     }
+    return plan
+
+
+def exact_collection_budget(rng, plan):
+    """On-policy routines collect in whole datasets (episodes until >= steps_per_update steps, or one episode with
+    train_after_episode; A2C: steps_per_update x num_envs). Make the budget end EXACTLY at a dataset boundary (the
+    coincidence in which an off-by-one in the loop condition starts one collection too many)."""
+    name, cfg, e = plan["adapter"], plan["cfg"], plan["env"]
+    if name == "a2c":
+        k = rng.choice([1, 2, 3])
+        plan["chain"][-1]["total_timesteps"] = k * cfg["steps_per_update"] * cfg["num_envs"]
+        return plan
+    if name not in ("reinforce", "actor_critic"):
+        return plan
+    lens = [ep["len"] for ep in e["script"]] + [e["tail_len"]] * 50
+    bounds, acc, cur = [], 0, 0
+    for L in lens:
+        acc += L
+        cur += L
+        if cfg.get("train_after_episode") or cur >= cfg["steps_per_update"]:
+            bounds.append(acc)
+            cur = 0
+        if len(bounds) >= 4:
+            break
+    plan["chain"][-1]["total_timesteps"] = rng.choice(bounds[:4])
     return plan
 
 
